@@ -35,6 +35,12 @@ class SymSlice:
         return f'SymSlice({self.start}, {self.stop}, {self.step})'
 
 
+class SymSeq:
+    """A non-empty sequence of ints of which the code may read the first element, the last element and the length."""
+    def __init__(self, first, last, length):
+        self.first, self.last, self.length = first, last, length
+
+
 class Unsupported(Exception):
     pass
 
@@ -164,6 +170,15 @@ class Interp:
             if isinstance(base, SymSlice) and e.attr in ('start', 'stop', 'step'):
                 return getattr(base, e.attr)
             raise Unsupported('attribute ' + e.attr)
+        if isinstance(e, ast.Subscript):
+            base = self.expr(e.value, env)
+            if isinstance(base, SymSeq):
+                idx = self.expr(e.slice, env)
+                if idx == 0 and isinstance(idx, int):
+                    return base.first
+                if idx == -1 and isinstance(idx, int):
+                    return base.last
+            raise Unsupported('subscript')
         if isinstance(e, ast.UnaryOp):
             v = self.expr(e.operand, env)
             if isinstance(e.op, ast.Not):
@@ -241,6 +256,8 @@ class Interp:
                     if isinstance(a, int) and isinstance(b, int):
                         return max(a, b)
                     return z3.If(a >= b, a, b)
+                if e.func.id == 'len' and isinstance(args[0], SymSeq):
+                    return args[0].length
                 if e.func.id == 'slice':
                     while len(args) < 3:
                         args.append(NONE)
@@ -320,7 +337,7 @@ class _HoistIfExp(ast.NodeTransformer):
 def function_ast(repo, relpath, name):
     src = open(os.path.join(repo, relpath)).read()
     tree = ast.parse(src)
-    for node in tree.body:
+    for node in ast.walk(tree):
         if isinstance(node, ast.FunctionDef) and node.name == name:
             node.body = _HoistIfExp().process(node.body)
             ast.fix_missing_locations(node)
@@ -418,7 +435,144 @@ def replay_ascending(repo, cex):
     return sorted(a) != sorted(b) or not (res.step is None or res.step > 0), dict(key=repr(key), size=size, result=repr(res), selected=a, selected_by_result=b)
 
 
+def _decide(s):
+    r = str(s.check())
+    r2 = z3_binary_verdict(s)
+    if r == 'unsat' and r2 == 'unsat':
+        return 'unsat'
+    if r == 'sat' and r2 in ('sat', 'none', 'timeout'):
+        return 'sat'
+    return f'inconclusive (z3-api={r} z3-4.8.12={r2})'
+
+
+def check_cols_to_slice(repo):
+    """TypeBlocks._cols_to_slice(indices): `indices` is a non-empty run of contiguous column positions inside one block,
+    ascending (f, f+1, ..., f+n-1) or descending (f, f-1, ..., f-n+1 >= 0).  For ALL f, n and every axis length
+    size > max(indices) and every position i:  i is selected by the returned slice  <=>  min <= i <= max, and the slice
+    runs in the direction of the run (step None/1 ascending, -1 descending)."""
+    fn = function_ast(repo, 'static_frame/core/type_blocks.py', '_cols_to_slice')
+    interp = Interp()
+    records = []
+    for direction in ('ascending', 'descending'):
+        f, n, size, i = z3.Int('f'), z3.Int('n'), z3.Int('size'), z3.Int('i')
+        last = f + (n - 1) if direction == 'ascending' else f - (n - 1)
+        lo, hi = (f, last) if direction == 'ascending' else (last, f)
+        pre = [n >= 1, f >= 0, last >= 0, size > hi]
+        rec = dict(cond=f'e3_cols_to_slice_{direction}', bounds='first index f, run length n, axis length size, position i: ALL integers with f >= 0, n >= 1, last >= 0, size > max', verdict='confirmed', paths=0, msg='')
+        try:
+            paths = interp.run(fn, {'indices': SymSeq(f, last, n)}, pre)
+        except Unsupported as ex:
+            rec.update(verdict='inconclusive', msg='not translatable: ' + str(ex))
+            records.append(rec)
+            continue
+        rec['paths'] = len(paths)
+        for pc, ret in paths:
+            if not isinstance(ret, SymSlice):
+                rec.update(verdict='inconclusive', msg='returns a non-slice')
+                break
+            rstep = 1 if ret.step is NONE else ret.step
+            if not isinstance(rstep, int):
+                rec.update(verdict='inconclusive', msg='symbolic result step')
+                break
+            s = z3.Solver()
+            s.set('timeout', 60000)
+            s.add(*pc)
+            want_dir = (rstep > 0) if direction == 'ascending' else (rstep < 0)
+            if not want_dir:
+                # a run of one element may be returned in either direction
+                s.add(n > 1)
+                bad = z3.BoolVal(True)
+            else:
+                bad = z3.Xor(member(i, ret, size), z3.And(i >= lo, i <= hi))
+            s.add(bad)
+            v = _decide(s)
+            if v == 'unsat':
+                continue
+            if v == 'sat':
+                m = s.model()
+                g = lambda t: m.eval(t, model_completion=True).as_long()   # noqa: E731
+                rec.update(verdict='counterexample', args=dict(f=g(f), n=g(n), direction=direction, size=g(size), i=g(i)), msg='selected positions differ from the run')
+            else:
+                rec.update(verdict='inconclusive', msg=v)
+            break
+        records.append(rec)
+    return records
+
+
+def replay_cols_to_slice(repo, cex):
+    import importlib
+    import sys
+    if repo not in sys.path:
+        sys.path.insert(0, repo)
+    tb = importlib.import_module('static_frame.core.type_blocks')
+    f, n = cex['f'], cex['n']
+    idx = [f + k for k in range(n)] if cex['direction'] == 'ascending' else [f - k for k in range(n)]
+    res = tb.TypeBlocks._cols_to_slice(idx)
+    got = list(range(cex['size']))[res]
+    return got != idx, dict(indices=idx, size=cex['size'], result=repr(res), selected=got)
+
+
+def check_inclusive(repo):
+    """util.slice_to_inclusive_slice(key, offset): start + offset, stop + 1 + offset, step kept; None stays None."""
+    fn = function_ast(repo, 'static_frame/core/util.py', 'slice_to_inclusive_slice')
+    interp = Interp()
+    records = []
+    for start_none in (False, True):
+        for stop_none in (False, True):
+            start = NONE if start_none else z3.Int('start')
+            stop = NONE if stop_none else z3.Int('stop')
+            offset = z3.Int('offset')
+            rec = dict(cond=f'e3_slice_to_inclusive_start{"None" if start_none else "Z"}_stop{"None" if stop_none else "Z"}',
+                       bounds='start, stop, offset: ALL integers', verdict='confirmed', paths=0, msg='')
+            try:
+                paths = interp.run(fn, {'key': SymSlice(start, stop, 3), 'offset': offset}, [])
+            except Unsupported as ex:
+                rec.update(verdict='inconclusive', msg='not translatable: ' + str(ex))
+                records.append(rec)
+                continue
+            rec['paths'] = len(paths)
+            for pc, ret in paths:
+                ok = isinstance(ret, SymSlice) and ret.step == 3 and (ret.start is NONE) == start_none and (ret.stop is NONE) == stop_none
+                if not ok:
+                    rec.update(verdict='counterexample', args=dict(start=None if start_none else 0, stop=None if stop_none else 0, offset=0), msg='None-ness or step not kept')
+                    break
+                s = z3.Solver()
+                s.add(*pc)
+                bad = []
+                if not start_none:
+                    bad.append(ret.start != start + offset)
+                if not stop_none:
+                    bad.append(ret.stop != stop + 1 + offset)
+                if not bad:
+                    continue
+                s.add(z3.Or(*bad))
+                v = _decide(s)
+                if v == 'unsat':
+                    continue
+                if v == 'sat':
+                    m = s.model()
+                    g = lambda t: m.eval(t, model_completion=True).as_long()   # noqa: E731
+                    rec.update(verdict='counterexample', args=dict(start=None if start_none else g(start), stop=None if stop_none else g(stop), offset=g(offset)), msg='bounds differ')
+                else:
+                    rec.update(verdict='inconclusive', msg=v)
+                break
+            records.append(rec)
+    return records
+
+
+def replay_inclusive(repo, cex):
+    import importlib
+    import sys
+    if repo not in sys.path:
+        sys.path.insert(0, repo)
+    util = importlib.import_module('static_frame.core.util')
+    key = slice(cex['start'], cex['stop'], 3)
+    res = util.slice_to_inclusive_slice(key, cex['offset'])
+    exp = slice(None if key.start is None else key.start + cex['offset'], None if key.stop is None else key.stop + 1 + cex['offset'], 3)
+    return res != exp, dict(key=repr(key), offset=cex['offset'], result=repr(res), expected=repr(exp))
+
+
 if __name__ == '__main__':
     print('spec cases validated:', validate_spec())
-    for r in check_ascending(os.environ.get('VERIF_REPO', '/repo')):
+    for r in check_ascending(os.environ.get('VERIF_REPO', '/repo')) + check_cols_to_slice(os.environ.get('VERIF_REPO', '/repo')) + check_inclusive(os.environ.get('VERIF_REPO', '/repo')):
         print(r)
